@@ -1,7 +1,7 @@
 (* C06 -- container prefixing changes neither interpretation nor source mapping of content.  Statements only;
    proofs in proofs/QuoteProofs.v; see DESIGN.md section 6 C06. *)
 From Coq Require Import String.
-From MdIt Require Import Prims Tables Tree Render Block Core Dump Dispatch Inline QuoteProofs ShiftProofs InlineShiftProofs.
+From MdIt Require Import Prims Tables Tree Render Block Core Dump Dispatch Inline QuoteProofs ShiftProofs InlineShiftProofs RenderWrapProofs.
 Local Open Scope string_scope.
 Local Open Scope list_scope.
 Local Open Scope N_scope.
@@ -59,6 +59,8 @@ Proof. exact quote_scan_rewrites. Qed.
    can underflow on the original offsets and not on the larger shifted ones.)
    The serializer ignores recorded positions, so the shifted block tree yields the same HTML after inline pass and
    clean-up (C06_shifted_tree_same_html).
+   The HTML wrapper (C06_quote_wrapper_html): Root[Blockquote cs] renders as the blockquote element around the
+   rendering of Root cs.
    NOT proved: the comparison with D parsed at level 0 (level 1 vs 0 only matters at the nesting limit), the
    list-item half, and the composition of these pieces into one statement about `parse`. *)
 Theorem C06_block_tokenizer_shift_invariant : forall P, atf P = true -> forall cfg fuel st, sinv st ->
@@ -107,6 +109,23 @@ Theorem C06_shifted_tree_same_html : forall P cfg nest ic tp ts fuel refs x n n'
   exists n2, inline_walk fuel icf refs (sh_node P n) = inr n2 /\ render x (fj_walk n2) = render x (fj_walk n').
 Proof. exact shifted_tree_same_html. Qed.
 
+(* THE HTML WRAPPER: a document whose only block is a block quote renders as "<blockquote>" LF, the rendering of the
+   quote's content as a document of its own, a line feed unless that is empty or already ends with one, "</blockquote>" LF
+   -- every content, HTML and XHTML *)
+Theorem C06_quote_wrapper_html : forall xhtml m a e m2 e2 m' a' e' cs,
+  render xhtml (Node KRoot m a e [Node KBlockquote m2 [] e2 cs]) = fmap bq_wrap (render xhtml (Node KRoot m' a' e' cs)).
+Proof. exact quote_wrapper_html. Qed.
+
+Example C06_wrapper_nonvacuous :
+  bq_wrap (bs "<p>a</p>
+") = bs "<blockquote>
+<p>a</p>
+</blockquote>
+" /\ bq_wrap [] = bs "<blockquote>
+</blockquote>
+".
+Proof. vm_compute. split; reflexivity. Qed.
+
 (* non-vacuity: the default parser's inline pass on a paragraph with emphasis, a code span and a link returns, and the
    shifted run returns the shifted tree *)
 Example C06_inline_shift_nonvacuous :
@@ -140,3 +159,4 @@ Print Assumptions C06_fragments_join_shift_invariant.
 Print Assumptions C06_shipped_inline_pass_shift.
 Print Assumptions C06_render_ignores_positions.
 Print Assumptions C06_shifted_tree_same_html.
+Print Assumptions C06_quote_wrapper_html.
